@@ -16,7 +16,7 @@ from ..model import AnalysisError, Func, parse_shape_text
 from ..terms import T, walk_terms
 from ..absint import AV, TOP, cav, is_bot
 from ..walk import (call_parts, call_arg, is_call_to, const_val, NOVAL, unwrap_gamma, mult_factors, call_paths, callee_func,
-                    callee_name, ctx_tree, norm_stmt, strip_views, guard_means_given, newaxis_insertions, axis_reordering, loop_role)
+                    callee_name, ctx_tree, norm_stmt, strip_views, guard_means_given, newaxis_insertions, axis_reordering, loop_role, trailing_items)
 from ..nptable import einsum_parse
 
 D = 'pb_bss.distribution.'
@@ -532,8 +532,9 @@ def check_weights_and_initialisers(run, A):
     okb = False
     for t in bc:
         shp = call_arg(t, 1, 'shape')
-        if shp is not None and shp.op in ('list', 'tuple') and len(shp.args[0]) >= 2:
-            k = shp.args[0][-2]
+        tail = trailing_items(shp, 2) if shp is not None else None
+        if tail is not None:
+            k = strip_views(tail[0])
             okb = k.op == 'param' and k.args[0] == 'num_classes'
     run.check(okb, 'R-AXIS', 'flag: class axis is -2 of the returned shape', f.loc(), '', 'flag does not broadcast to (..., num_classes, N)', construct='R-AXIS::flag::shape')
     # deflation seed: normalised over axis 0 of its (K, F, T) result
